@@ -550,7 +550,11 @@ def verify_keyring_signature(path: str | os.PathLike[Any], password: str) -> boo
     with _path.open(encoding="utf-8") as file:
         parser = xml.sax.make_parser()
         parser.setContentHandler(handler)
-        parser.parse(file)
+        try:
+            parser.parse(file)
+        except ValueError:
+            # a name or value longer than 255 octets can not be part of signed content
+            return False
 
     return sha256_hash(handler.output)[:16] == signature
 
